@@ -61,7 +61,8 @@ def tok_attrs(ttype, text):
 
 
 def tokens_event(tokens):
-    return [{"t": t, "v": v, "line": l, "a": tok_attrs(t, v)} for t, v, l in tokens]
+    import a2mlgen          # (the attributes of A2ml.tla - byte length of strings, f32 range - are a superset)
+    return [{"t": t, "v": v, "line": l, "a": a2mlgen.tok_attrs(t, v)} for t, v, l in tokens]
 
 
 # --------------------------------------------------------------------------------------------
@@ -140,6 +141,20 @@ def compare_node(spec, real, path, out):
     tag = spec["tag"]
     el = EL[tag]
     if tag == "IF_DATA":
+        # params = [valid, value tree] of A2ml.tla; the stored generic tree must hold the values the tokens denote
+        import a2mlgen
+        valid, v = spec["params"][0], spec["params"][1]
+        items = real.get("ifdata_items") if isinstance(real, dict) else None
+        if v.get("k") == "absent":
+            if items is not None:
+                out.append(f"{path}: empty IF_DATA, the model has content")
+            return
+        if items is None:
+            out.append(f"{path}: IF_DATA content missing in the model")
+            return
+        d = a2mlgen.value_diff(v, a2mlgen.norm_value(items), path, described=bool(valid))
+        if d:
+            out.append(d)
         return
     if tag == "A2ML":
         if not (isinstance(real, dict) and real.get("a2ml_text", {}).get("_s") == spec["params"][0]):
